@@ -311,7 +311,7 @@ def unit_dummy1d():
 
 
 # ---- backward ------------------------------------------------------------------------------------
-def unit_backward(fpat, ppat):
+def unit_backward(fpat, ppat, alias=False):
     """fpat / ppat over {T: tensor used, U: tensor requiring grad but unused, X: number} for f and log p parameters"""
     mc, mq = _mods()
     from xitorch._core.pure_function import get_pure_function
@@ -326,6 +326,9 @@ def unit_backward(fpat, ppat):
         def mkparams(pat, pre):
             out = []
             for i, k in enumerate(pat):
+                if alias and pre == "fp" and out and i == len(pat) - 1 and k == "T":
+                    out.append(out[0])            # one tensor passed in two parameter positions of f
+                    continue
                 out.append(st.vec("%s%d" % (pre, i), (2,), (0,), requires_grad=True) if k in "TU" else 2.5)
             return out
         fparams, pparams = mkparams(fpat, "fp"), mkparams(ppat, "pp")
@@ -441,7 +444,7 @@ def unit_backward(fpat, ppat):
             want = _scalar_cot(coef).apply("J%d@%s^H" % (argpos, ppt[0])).scale(alg.Sc(w))
             kit.prove_vec(c, "p_slot[%d:T]_is_the_score_function_estimator_((f-E).g)dlogp" % i, gi, want)
         c.prove("canary", z3.BoolVal(False), kind="canary")
-    return kit.run_unit("backward[f:%s,p:%s]" % (fpat or "-", ppat or "-"), run)
+    return kit.run_unit("backward[f:%s,p:%s%s]" % (fpat or "-", ppat or "-", ",same_tensor_twice" if alias else ""), run)
 
 
 def _fatom(pt, flog):
@@ -467,4 +470,5 @@ def units(tier):
           ("sampler_tops", unit_sampler_tops), ("mh_sample", unit_mh_sample), ("integrate", unit_integrate), ("dummy1d", unit_dummy1d)]
     for fp, pp in (("T", "T"), ("TX", "T"), ("T", ""), ("", "T"), ("TU", "T"), ("T", "UT"), ("XT", "TX"), ("U", "T"), ("T", "U")):
         us.append(("backward[f:%s,p:%s]" % (fp or "-", pp or "-"), (lambda fp=fp, pp=pp: unit_backward(fp, pp))))
+    us.append(("backward[f:TT,p:-,same_tensor_twice]", lambda: unit_backward("TT", "", True)))
     return us
